@@ -77,5 +77,16 @@ TwoNamesCycle(kind) ==
 NeverTwoNamesCycleCP    == ~TwoNamesCycle("checkpeers")
 NeverTwoNamesCycleAll   == ~TwoNamesCycle("checkall")
 NeverTwoNamesCycleWatch == ~TwoNamesCycle("watch")
+\* a far-expiring metric followed by an earlier-expiring one from the same peer, which then expires and is alerted
+FarThenNear(cls) ==
+    \E nm \in NAMES, p \in PEERS :
+        LET q == s.win[nm][p]
+        IN /\ Len(q) >= 2
+           /\ q[Len(q) - 1].exp = FAR /\ q[Len(q) - 1].valid
+           /\ Last(q).valid /\ Last(q).exp # FAR
+           /\ (cls = "past" => Last(q).exp = -1) /\ (cls = "short" => Last(q).exp >= 0)
+           /\ o.since[p][nm] = 1
+NeverFarThenPastAlert  == ~FarThenNear("past")
+NeverFarThenShortAlert == ~FarThenNear("short")
 NeverWrapExpired == ~(\E nm \in NAMES, p \in PEERS : obs.n[nm][p] = W /\ s.cnt[nm][p] > W /\ Len(obs.alerts) > 0)
 =============================================================================
